@@ -34,7 +34,7 @@ let string_of_dump g st =
            String.concat "," (List.map (fun (s, x) -> string_of_int s ^ x) l))
        (dump g st))
 
-let post_cfg = ref { committee = []; quorum = O; duty_slot = N0; expected = [] }
+let post_cfg = ref { committee = []; quorum = O; duty_slot = N0; expected = []; fix_multi = false }
 let post_st = ref init_state
 
 let do_post ws =
@@ -89,7 +89,7 @@ let take_ids ws =
       go k rest []
   | [] -> failwith "ids"
 
-let vcfg = ref { v_committee = []; v_quorum = O }
+let vcfg = ref { v_committee = []; v_quorum = O; v_fix_resign = false; v_fix_multi = false }
 let vst = ref vinit
 let cur_role = ref RAtt
 
@@ -167,14 +167,18 @@ let () =
   iter_lines (function
     | "CASE" :: _ as w -> print_endline (String.concat " " w)
     | [ "END" ] -> print_endline "END"
-    | "NEW" :: _role :: q :: slot :: nroots :: _n :: ids ->
+    | "NEW" :: role :: q :: slot :: nroots :: _n :: ids ->
+        (* which variant of the multi-root loop the source contains is read from the source
+           (coq/Gen/RunnerConsts.v); only the sync-committee contribution runner has that loop *)
         post_cfg := { committee = List.map n_of_string ids; quorum = nat_of_string q;
-                      duty_slot = n_of_string slot; expected = nat_list_of (int_of_string nroots) };
+                      duty_slot = n_of_string slot; expected = nat_list_of (int_of_string nroots);
+                      fix_multi = (role = "scc") && fix_multi_root };
         post_st := init_state
     | "POST" :: rest -> do_post rest
     | [ "RNEW"; n ] ->
         let n = int_of_string n in
-        vcfg := { v_committee = List.init n (fun i -> n_of_int (i + 1)); v_quorum = nat_of_int (n - (n - 1) / 3) };
+        vcfg := { v_committee = List.init n (fun i -> n_of_int (i + 1)); v_quorum = nat_of_int (n - (n - 1) / 3);
+                  v_fix_resign = fix_resign; v_fix_multi = fix_multi_root };
         vst := vinit
     | "RSTART" :: rest -> do_rstart rest
     | "RMSG" :: rest -> do_rmsg rest
